@@ -80,12 +80,23 @@ static inline std::vector<Bn> exps_of_list(const std::vector<MAttr>& L, int l) {
 }
 static inline bool exps_equal(const std::vector<Bn>& a, const std::vector<Bn>& b) { if (a.size() != b.size()) return false; for (size_t i = 0; i < a.size(); i++) if (a[i] != b[i]) return false; return true; }
 
+// The list a call receives is in the library's own format in an exact-size heap block of the caller (so that a read of entry n is
+// outside the block, and so that a library that writes to its const input list is seen): built through the adapter for the replica
+// and view of the running plan (thread-locals set by execute_plan). When the block differs after the call from what was built,
+// tl_list_modified is set; scenarios turn that into a violation at the end of the op.
+extern thread_local Rep* tl_env_rep; extern thread_local int tl_env_view; extern thread_local const char* tl_list_modified;
 struct JAttrs {      // storage for a jv_attrs passed to the adapter
-    std::vector<jv_attr> a; jv_attrs l;
+    std::vector<jv_attr> a; jv_attrs l; uint8_t* nat = nullptr; size_t nat_n = 0; std::vector<uint8_t> nat_copy;
     JAttrs(const std::vector<MAttr>& L, bool omit_all, bool is_null = false) {
         for (auto& m : L) { jv_attr x; memset(&x, 0, sizeof(x)); m.id.to_le(x.id, 32); x.idx = m.idx; x.omit = m.omit ? 1 : 0; a.push_back(x); }
-        l.a = a.data(); l.n = a.size(); l.omit_all = omit_all ? 1 : 0; l.is_null = is_null ? 1 : 0;
+        l.a = a.data(); l.n = a.size(); l.omit_all = omit_all ? 1 : 0; l.is_null = is_null ? 1 : 0; l.native = nullptr;
+        if (tl_env_rep && !is_null) {
+            nat_n = tl_env_rep->jv_wk_native_list_bytes(tl_env_view, a.size()); nat = (uint8_t*) malloc(nat_n);
+            tl_env_rep->jv_wk_native_list_build(tl_env_view, nat, &l); l.native = nat; nat_copy.assign(nat, nat + nat_n);
+        }
     }
+    JAttrs(const JAttrs&) = delete; JAttrs& operator=(const JAttrs&) = delete;
+    ~JAttrs() { if (nat) { if (memcmp(nat, nat_copy.data(), nat_n) != 0) tl_list_modified = "an attribute list passed as a const input was modified by the call"; free(nat); } }
 };
 
 static inline std::string list_str(const std::vector<MAttr>& L) {
